@@ -262,6 +262,13 @@ return r != "error" and len(r) == 1 and val(r[0][0]) == a + b * 3''', {"kind": "
     hs.append(H(nm("is"), "a: int, b: int, c: int", " and ".join(small.format(v) for v in "abc"), '''
 r = results(lambda: eb._builtin_is(Constant(c), Term('-', Constant(a), Constant(b)), engine=E))
 return r != "error" and (len(r) == 1) == (c == a - b)''', {"kind": "is/2 (int is expr)"}))
+    hs.append(H(nm("is"), "a: int, b: int, n: int", "-6 <= a <= 6 and -6 <= b <= 6 and -24 <= n <= 24", '''
+r = results(lambda: eb._builtin_is(Constant(D(n)), Term('+', Constant(a), Constant(b)), engine=E))
+return r == []''', {"kind": "is/2 (float is int-valued expr never succeeds)"}))
+    hs.append(H(nm("is"), "c: int, n: int", "-6 <= c <= 6 and -24 <= n <= 24", '''
+r = results(lambda: eb._builtin_is(Constant(c), Term('+', Constant(D(n)), Constant(0.5)), engine=E))
+r2 = results(lambda: eb._builtin_is(Constant(D(n) + 0.5), Term('+', Constant(D(n)), Constant(0.5)), engine=E))
+return r == [] and r2 != "error" and len(r2) == 1''', {"kind": "is/2 (int is float-valued expr never succeeds)"}))
     hs.append(H(nm("is"), "a: int", small.format("a"), '''
 r = results(lambda: eb._builtin_is(-1, Term('//', Constant(a), Constant(0)), engine=E))
 return r == "error"''', {"kind": "is/2 division by zero"}))
